@@ -22,13 +22,13 @@ RULE = ("Histories over the alphabet {assign / slice-assign a,b,c; fixedValue; f
         "1..2), pool of <= 6 variables, both construction styles.  Three engines share one interpreter + reference model: "
         "(1) Hypothesis-generated programs (lists of operations, 1..40 steps), (2) a Hypothesis RuleBasedStateMachine (rules = "
         "operations, invariant after every step, up to 50 steps), (3) bounded-exhaustive enumeration of all sequences of length "
-        "<= 3 (thorough: 4 on the 1-D mesh) over a 14-letter concrete alphabet on a 3-cell Grid1D and a 2x2 Grid2D, each followed "
+        "<= 3 (thorough: 4) over a 14-letter concrete alphabet on a 3-cell Grid1D and a 2x2 Grid2D, each followed "
         "by each of three solves.  Oracle: after every solve a FRESH variable is built from the model (interior values + BC "
         "contents) and the same solve is run on it; after every operation the visible state of every variable must equal the "
         "model's; a variable with both dirty bits clear must have reference ghost values and a cached boundary term equal to a "
         "freshly built one.  Non-trivial = the compared solve is preceded by >=1 BC edit and >=1 value edit, or involves a shared "
         "BC object, an explicit-solver result passed to solvePDE, or a copy edited before solving.  Distinct = SHA-1 of the program.")
-EXHAUSTIVE_NOTE = ("all sequences of length <= 3 over the 14-letter alphabet x 3 final solves x 2 meshes (length 4 on the 1-D mesh in the thorough tier); "
+EXHAUSTIVE_NOTE = ("all sequences of length <= 3 over the 14-letter alphabet x 3 final solves x 2 meshes (length 4 in the thorough tier); "
                    "every single edit kind x every face x all 9 grid classes applied to a clean variable, followed by each solve")
 ASSUMPTIONS = ["K3: dirty bits live on the shared BC object; when another sharer's apply_BCs cleared them, a variable's cached boundary "
                "term / ghost layer stays stale.  The model tracks exactly this pattern (BC version newer than the variable's last "
@@ -502,7 +502,7 @@ def strategy(tier):
 
 
 def budget(tier):
-    return 1500 if tier == "quick" else 15000
+    return 1500 if tier == "quick" else 60000
 
 
 SPEC0 = dict(dt=0.5, alpha=1.0, seed=3, scheme='upwind', beta=False, gamma=True, dt_e=1e-3)
@@ -566,7 +566,7 @@ def single_edit_probes():
 def enumerate_cases(tier):
     yield from single_edit_probes()
     for mi, g in enumerate(MESHES):
-        maxlen = 4 if (tier == 'thorough' and mi == 0) else 3
+        maxlen = 4 if tier == 'thorough' else 3
         for L in range(0, maxlen + 1):
             for seq in itertools.product(range(len(ALPHABET)), repeat=L):
                 for fin in FINALS:
